@@ -15,12 +15,13 @@ Import ListNotations.
 
 (* ---------- indexing ---------- *)
 
-(* obj[i] of every indexable class, for every index of the ssize_t range: the element
-   for 0 <= i < len and -len <= i < 0, IndexError otherwise.  [d], [t] are arbitrary;
+(* obj[i] of every indexable class, for EVERY integer i (since the fix of F33 an integer
+   outside the C ssize_t range is out of range like any other): the element for
+   0 <= i < len and -len <= i < 0, IndexError otherwise.  [d], [t] are arbitrary;
    a StripedScores is any value calculate() can return (scores_of, motif of M >= 1 rows,
    sequence of L <= R*C symbols). *)
 Theorem C18_getitem_spec :
-  forall (T : Type) (dflt : T) (i : Z), in_ssize i = true ->
+  forall (T : Type) (dflt : T) (i : Z),
   (forall d : list T, (enc_len d <= ssize_max)%Z ->
      index_spec (enc_len d) (fun k => VElem (nth k d dflt)) i (out_of_res VElem (enc_getitem d i))) /\
   (forall t : list (list T), (mat_len t <= ssize_max)%Z ->
@@ -29,9 +30,9 @@ Theorem C18_getitem_spec :
      let s := scores_of dflt C S R L M pos in
      index_spec (scores_len s) (fun k => VElem (nth k pos dflt)) i (out_of_res VElem (scores_getitem s i))).
 Proof.
-  intros T dflt i Hi. split; [|split].
-  - intros d Hd. exact (enc_getitem_obs dflt d i Hd Hi).
-  - intros t Ht. exact (mat_getitem_obs t i Ht Hi).
+  intros T dflt i. split; [|split].
+  - intros d Hd. exact (enc_getitem_obs dflt d i Hd).
+  - intros t Ht. exact (mat_getitem_obs t i Ht).
   - intros C S R L M pos HM HL Hn s.
     destruct (scores_of_inv dflt C S R L M pos HM HL) as (Ht & Hm & Hmax & _).
     apply (scores_getitem_obs dflt s C _ pos i Ht Hm); auto.
@@ -47,40 +48,26 @@ Theorem C18_getitem_never_panics :
   (forall C S R L M pos, 1 <= M -> L <= R * C -> (Z.of_nat L <= ssize_max)%Z ->
      is_panic (scores_getitem (scores_of dflt C S R L M pos) i) = false).
 Proof.
-  intros T dflt i. destruct (in_ssize i) eqn:Hi.
-  - split; [|split].
-    + intros d Hd. rewrite (enc_getitem_py dflt d i Hd Hi).
-      unfold py_index. destruct ((0 <=? i) && (i <? enc_len d))%Z; cbn; auto.
-      destruct ((- enc_len d <=? i) && (i <? 0))%Z; cbn; auto.
-    + intros t Ht. rewrite (mat_getitem_py t i Ht Hi).
-      unfold py_index. destruct ((0 <=? i) && (i <? mat_len t))%Z; cbn; auto.
-      destruct ((- mat_len t <=? i) && (i <? 0))%Z; cbn; auto.
-    + intros C S R L M pos HM HL Hn.
-      destruct (scores_of_inv dflt C S R L M pos HM HL) as (Ht & Hm & Hmax & _).
-      rewrite (scores_getitem_py dflt _ C _ pos i Ht Hm); auto.
-      * unfold py_index. destruct ((0 <=? i) && (i <? _))%Z; cbn; auto.
-        destruct ((- _ <=? i) && (i <? 0))%Z; cbn; auto.
-      * rewrite Hmax. destruct ((L <? M) || (R =? 0)); lia.
-  - split; [|split]; intros.
-    + rewrite (proj1 (getitem_outside d [] (scores_new 0 0 [] 0) i Hi)). reflexivity.
-    + rewrite (proj1 (proj2 (getitem_outside [] t (scores_new 0 0 [] 0) i Hi))). reflexivity.
-    + rewrite (proj2 (proj2 (getitem_outside [] [] (scores_of dflt C S R L M pos) i Hi))). reflexivity.
+  intros T dflt i. split; [|split].
+  - intros d Hd. rewrite (enc_getitem_py dflt d i Hd).
+    unfold py_index. destruct ((0 <=? i) && (i <? enc_len d))%Z; cbn; auto.
+    destruct ((- enc_len d <=? i) && (i <? 0))%Z; cbn; auto.
+  - intros t Ht. rewrite (mat_getitem_py t i Ht).
+    unfold py_index. destruct ((0 <=? i) && (i <? mat_len t))%Z; cbn; auto.
+    destruct ((- mat_len t <=? i) && (i <? 0))%Z; cbn; auto.
+  - intros C S R L M pos HM HL Hn.
+    destruct (scores_of_inv dflt C S R L M pos HM HL) as (Ht & Hm & Hmax & _).
+    rewrite (scores_getitem_py dflt _ C _ pos i Ht Hm); auto.
+    + unfold py_index. destruct ((0 <=? i) && (i <? _))%Z; cbn; auto.
+      destruct ((- _ <=? i) && (i <? 0))%Z; cbn; auto.
+    + rewrite Hmax. destruct ((L <? M) || (R =? 0)); lia.
 Qed.
 
-(* Current tree (known finding C18-overflowerror-outside-ssize_t): for an integer outside
-   the ssize_t range the outcome is OverflowError, which index_spec (a Python sequence
-   raises IndexError) does not allow.  The full-strength statement "for every integer i"
-   of C18_getitem_spec is therefore false of the code as it is. *)
-Theorem C18_getitem_outside_ssize_refuted :
-  exists (i : Z) (d : list Z),
-    out_of_res VElem (enc_getitem d i) = OExc EOverflow /\
-    ~ index_spec (enc_len d) (fun k => VElem (nth k d 0%Z)) i (out_of_res VElem (enc_getitem d i)).
-Proof.
-  exists 9223372036854775808%Z, [0%Z; 1%Z]. split; [reflexivity|].
-  intros (_ & _ & H). assert (E : OExc EOverflow = @OExc (@pyval Z) EIndex).
-  { apply H. right. vm_compute. discriminate. }
-  discriminate E.
-Qed.
+(* repaired defect F33 (corpus/C18/boundary.txt, cases with big=1): 2^63 and -2^63-1 *)
+Example C18_getitem_outside_ssize_is_index_error :
+  out_of_res VElem (enc_getitem [0%Z; 1%Z] 9223372036854775808%Z) = OExc EIndex /\
+  out_of_res VElem (enc_getitem [0%Z; 1%Z] (-9223372036854775809)%Z) = OExc EIndex.
+Proof. split; reflexivity. Qed.
 
 (* len() of a StripedScores is the number of scored positions *)
 Theorem C18_scores_len :
@@ -244,7 +231,7 @@ Theorem check_C18_sound :
 Proof. intros T dflt eqT H o ob. exact (check_C18_sound_lemma dflt eqT H o ob). Qed.
 
 (* The property for the model of lib.rs, in executable form: for every well-formed logical
-   object of every class (StripedScores below), every list of indices of the ssize_t range
+   object of every class (StripedScores below), every list of integer indices
    and every history of reconfigurations, the observation the model predicts is accepted by
    the checker — hence (check_C18_sound) satisfies Holds_C18: right length, every index
    outcome, item format, shape, the address of every element, contents. *)
@@ -252,8 +239,7 @@ Theorem C18_model_passes :
   forall (T : Type) (dflt : T) (eqT : T -> T -> bool) (poison : T),
     (forall x, eqT x x = true) ->
     forall (o : @lobj T) idxs wraps L M,
-      lobj_wf o -> (llen o <= ssize_max)%Z -> (forall i, In i idxs -> in_ssize i = true) ->
-      lkind o <> KScores ->
+      lobj_wf o -> (llen o <= ssize_max)%Z -> lkind o <> KScores ->
       check_C18 dflt eqT o (model_obs dflt poison o idxs wraps L M) = true.
 Proof. intros T dflt eqT poison H o idxs wraps L M. exact (model_passes_lemma dflt eqT H poison o idxs wraps L M). Qed.
 
@@ -262,7 +248,7 @@ Theorem C18_model_passes_scores :
   forall (T : Type) (dflt : T) (eqT : T -> T -> bool) (poison : T),
     (forall x, eqT x x = true) ->
     forall L M (pos : list T) idxs wraps,
-      1 <= M -> (Z.of_nat L <= ssize_max)%Z -> (forall i, In i idxs -> in_ssize i = true) ->
+      1 <= M -> (Z.of_nat L <= ssize_max)%Z ->
       check_C18 dflt eqT (scores_lobj L M pos) (model_obs dflt poison (scores_lobj L M pos) idxs wraps L M) = true.
 Proof. intros T dflt eqT poison H L M pos idxs wraps. exact (model_passes_scores_lemma dflt eqT H poison L M pos idxs wraps). Qed.
 
@@ -348,7 +334,7 @@ Proof.
 Qed.
 
 Check C18_getitem_spec :
-  forall (T : Type) (dflt : T) (i : Z), in_ssize i = true ->
+  forall (T : Type) (dflt : T) (i : Z),
   (forall d : list T, (enc_len d <= ssize_max)%Z ->
      index_spec (enc_len d) (fun k => VElem (nth k d dflt)) i (out_of_res VElem (enc_getitem d i))) /\
   (forall t : list (list T), (mat_len t <= ssize_max)%Z ->
